@@ -42,13 +42,13 @@ theorem getElem?_set!_self {α : Type} (a : Array α) (i : Nat) (x : α) : (a.se
 
 /-- two worlds with the same documents and references at every index, and the same log, ghost table, geometry -/
 theorem world_ext {a b : W} (h1 : ∀ j : Nat, a.docs[j]? = b.docs[j]?) (h2 : ∀ r : Nat, a.refs[r]? = b.refs[r]?) (h3 : a.log = b.log)
-    (h4 : a.dead = b.dead) (h5 : a.geo = b.geo) (h6 : a.strOverhead = b.strOverhead) : a = b := by
-  obtain ⟨ad, ar, al, ae, ag, as⟩ := a
-  obtain ⟨bd, br, bl, be, bg, bs⟩ := b
+    (h4 : a.dead = b.dead) (h5 : a.geo = b.geo) (h6 : a.strOverhead = b.strOverhead) (h7 : a.maxStrLen = b.maxStrLen) : a = b := by
+  obtain ⟨ad, ar, al, ae, ag, as, am⟩ := a
+  obtain ⟨bd, br, bl, be, bg, bs, bm⟩ := b
   have e1 : ad = bd := Array.ext_getElem? h1
   have e2 : ar = br := Array.ext_getElem? h2
-  simp only at h3 h4 h5 h6
-  subst e1 e2 h3 h4 h5 h6
+  simp only at h3 h4 h5 h6 h7
+  subst e1 e2 h3 h4 h5 h6 h7
   rfl
 
 /-! ## 1. Steps, footprints -/
@@ -79,7 +79,7 @@ structure Local {O : Type} (f : Step O) (p : FP) : Prop where
   frame_refs : ∀ w r, ¬ p.bind r → (f w).2.refs[r]? = w.refs[r]?
   /-- nothing else in the world changes: no log entry, no ghost state, no geometry -/
   frame_rest : ∀ w, (f w).2.log = w.log ∧ (f w).2.dead = w.dead ∧ (f w).2.geo = w.geo ∧
-    (f w).2.strOverhead = w.strOverhead
+    (f w).2.strOverhead = w.strOverhead ∧ (f w).2.maxStrLen = w.maxStrLen
   /-- what is written is read -/
   wr_rd : ∀ w j, p.wr w j → p.rd w j
   /-- a reference that is rebound counts as used -/
@@ -114,7 +114,7 @@ theorem Local.commute {O O' : Type} {f : Step O} {g : Step O'} {p q : FP} (hf : 
   obtain ⟨go, gd, gr, gw, _⟩ := hg.loc w (f w).2 (hf.agree_after hd)
   obtain ⟨fo, fd, fr, fw, _⟩ := hf.loc w (g w).2 (hg.agree_after hd.symm)
   have pq : ∀ j, p.wr w j → ¬ q.wr w j := fun j h h' => hd.wr_rd j h (hg.wr_rd w j h')
-  refine ⟨world_ext (fun j => ?_) (fun r => ?_) ?_ ?_ ?_ ?_, go.symm, fo.symm⟩
+  refine ⟨world_ext (fun j => ?_) (fun r => ?_) ?_ ?_ ?_ ?_ ?_, go.symm, fo.symm⟩
   · by_cases h1 : q.wr w j
     · rw [← gd j h1, hf.frame_docs (g w).2 j (fun h => pq j ((fw j).2 h) h1)]
     · rw [hg.frame_docs (f w).2 j (fun h => h1 ((gw j).2 h))]
@@ -130,7 +130,8 @@ theorem Local.commute {O O' : Type} {f : Step O} {g : Step O'} {p q : FP} (hf : 
   · rw [(hg.frame_rest _).1, (hf.frame_rest _).1, (hf.frame_rest _).1, (hg.frame_rest _).1]
   · rw [(hg.frame_rest _).2.1, (hf.frame_rest _).2.1, (hf.frame_rest _).2.1, (hg.frame_rest _).2.1]
   · rw [(hg.frame_rest _).2.2.1, (hf.frame_rest _).2.2.1, (hf.frame_rest _).2.2.1, (hg.frame_rest _).2.2.1]
-  · rw [(hg.frame_rest _).2.2.2, (hf.frame_rest _).2.2.2, (hf.frame_rest _).2.2.2, (hg.frame_rest _).2.2.2]
+  · rw [(hg.frame_rest _).2.2.2.1, (hf.frame_rest _).2.2.2.1, (hf.frame_rest _).2.2.2.1, (hg.frame_rest _).2.2.2.1]
+  · rw [(hg.frame_rest _).2.2.2.2, (hf.frame_rest _).2.2.2.2, (hf.frame_rest _).2.2.2.2, (hg.frame_rest _).2.2.2.2]
 
 /-! ## 2. Histories, regions, interleavings -/
 
@@ -219,14 +220,14 @@ theorem inter_aux {O : Type} {A B S : Region} (hAB : A.Disj B) (hAS : A.Disj S) 
       (∀ j, ¬ A.docs j → ¬ B.docs j → (runInter sched w).1.docs[j]? = w.docs[j]?) ∧
       (∀ r, ¬ A.refs r → ¬ B.refs r → (runInter sched w).1.refs[r]? = w.refs[r]?) ∧
       (runInter sched w).1.log = w.log ∧ (runInter sched w).1.dead = w.dead ∧ (runInter sched w).1.geo = w.geo ∧
-      (runInter sched w).1.strOverhead = w.strOverhead := by
+      (runInter sched w).1.strOverhead = w.strOverhead ∧ (runInter sched w).1.maxStrLen = w.maxStrLen := by
   intro sched
   induction sched with
-  | nil => intro w wa wb ha hb _ _; exact ⟨ha, hb, rfl, rfl, fun _ _ _ => rfl, fun _ _ _ => rfl, rfl, rfl, rfl, rfl⟩
+  | nil => intro w wa wb ha hb _ _; exact ⟨ha, hb, rfl, rfl, fun _ _ _ => rfl, fun _ _ _ => rfl, rfl, rfl, rfl, rfl, rfl⟩
   | cons hd rest ih =>
     obtain ⟨b, s⟩ := hd
     intro w wa wb ha hb ca cb
-    obtain ⟨l1, l2, l3, l4⟩ := s.ok.frame_rest w
+    obtain ⟨l1, l2, l3, l4, l5⟩ := s.ok.frame_rest w
     cases b with
     | true =>
       rw [sideOf_cons_self] at ca
@@ -239,9 +240,9 @@ theorem inter_aux {O : Type} {A B S : Region} (hAB : A.Disj B) (hAS : A.Disj S) 
             rw [fd j (fun h => by rcases hj with h' | h'; exact hAB.1 j h h'; exact hAS.1 j h h')]; exact hb.1 j hj,
          fun r hr => by
             rw [fr r (fun h => by rcases hr with h' | h'; exact hAB.2 r h h'; exact hAS.2 r h h')]; exact hb.2 r hr⟩
-      obtain ⟨i1, i2, i3, i4, i5, i6, i7, i8, i9, i10⟩ := ih (s.f w).2 (s.f wa).2 wb ha' hb' ca' cb
+      obtain ⟨i1, i2, i3, i4, i5, i6, i7, i8, i9, i10, i11⟩ := ih (s.f w).2 (s.f wa).2 wb ha' hb' ca' cb
       refine ⟨i1, i2, ?_, i4, fun j h1 h2 => (i5 j h1 h2).trans (fd j h1), fun r h1 h2 => (i6 r h1 h2).trans (fr r h1),
-        i7.trans l1, i8.trans l2, i9.trans l3, i10.trans l4⟩
+        i7.trans l1, i8.trans l2, i9.trans l3, i10.trans l4, i11.trans l5⟩
       show sideOf true ((true, (s.f w).1) :: (runInter rest (s.f w).2).2) = (s.f wa).1 :: _
       rw [sideOf_cons_self, i3, o]
     | false =>
@@ -255,9 +256,9 @@ theorem inter_aux {O : Type} {A B S : Region} (hAB : A.Disj B) (hAS : A.Disj S) 
             rw [fd j (fun h => by rcases hj with h' | h'; exact hAB.1 j h' h; exact hBS.1 j h h')]; exact ha.1 j hj,
          fun r hr => by
             rw [fr r (fun h => by rcases hr with h' | h'; exact hAB.2 r h' h; exact hBS.2 r h h')]; exact ha.2 r hr⟩
-      obtain ⟨i1, i2, i3, i4, i5, i6, i7, i8, i9, i10⟩ := ih (s.f w).2 wa (s.f wb).2 ha' hb' ca cb'
+      obtain ⟨i1, i2, i3, i4, i5, i6, i7, i8, i9, i10, i11⟩ := ih (s.f w).2 wa (s.f wb).2 ha' hb' ca cb'
       refine ⟨i1, i2, i3, ?_, fun j h1 h2 => (i5 j h1 h2).trans (fd j h2), fun r h1 h2 => (i6 r h1 h2).trans (fr r h2),
-        i7.trans l1, i8.trans l2, i9.trans l3, i10.trans l4⟩
+        i7.trans l1, i8.trans l2, i9.trans l3, i10.trans l4, i11.trans l5⟩
       show sideOf false ((false, (s.f w).1) :: (runInter rest (s.f w).2).2) = (s.f wb).1 :: _
       rw [sideOf_cons_self, i4, o]
 
@@ -268,14 +269,14 @@ theorem inter_eq {O : Type} {A B S : Region} (hAB : A.Disj B) (hAS : A.Disj S) (
     (cb : Confined B S (sideOf false s1) w) :
     (runInter s1 w).1 = (runInter s2 w).1 ∧ sideOf true (runInter s1 w).2 = sideOf true (runInter s2 w).2 ∧
     sideOf false (runInter s1 w).2 = sideOf false (runInter s2 w).2 := by
-  obtain ⟨a1, a2, a3, a4, a5, a6, a7, a8, a9, a10⟩ :=
+  obtain ⟨a1, a2, a3, a4, a5, a6, a7, a8, a9, a10, a11⟩ :=
     inter_aux hAB hAS hBS s1 w w w (AgreeOn.refl _ _ _) (AgreeOn.refl _ _ _) ca cb
-  obtain ⟨b1, b2, b3, b4, b5, b6, b7, b8, b9, b10⟩ :=
+  obtain ⟨b1, b2, b3, b4, b5, b6, b7, b8, b9, b10, b11⟩ :=
     inter_aux hAB hAS hBS s2 w w w (AgreeOn.refl _ _ _) (AgreeOn.refl _ _ _) (e1 ▸ ca) (e2 ▸ cb)
   rw [← e1] at b1 b3
   rw [← e2] at b2 b4
   refine ⟨world_ext (fun j => ?_) (fun r => ?_) (a7.trans b7.symm) (a8.trans b8.symm) (a9.trans b9.symm)
-    (a10.trans b10.symm), a3.trans b3.symm, a4.trans b4.symm⟩
+    (a10.trans b10.symm) (a11.trans b11.symm), a3.trans b3.symm, a4.trans b4.symm⟩
   · by_cases h1 : A.docs j
     · exact (a1.1 j (Or.inl h1)).trans (b1.1 j (Or.inl h1)).symm
     · by_cases h2 : B.docs j
